@@ -62,16 +62,16 @@ MUTANTS = {
     "mtm_register_keeps_errors": ("typemap.py", "        self.errors.clear()\n", "", ["C05"]),
     "mtm_register_keeps_all": ("typemap.py", "        self.all.clear()\n", "", ["C05"]),
     "mtm_register_noclear": ("typemap.py", "        self.clear()\n        self.all.clear()", "        self.all.clear()", ["C05"]),
-    "unregister_no_update": ("core.py", "                self._defns[replace(key, tiebreak=-i)] = f\n        self._update()", "                self._defns[replace(key, tiebreak=-i)] = f", ["C05"]),
+    "unregister_no_update": ("core.py", "        rebuild = self._begin_update()\n        self._defns = {}", "        rebuild = []\n        self._defns = {}", ["C05"]),
     "unregister_keeps_tiebreak": ("core.py", "                self._defns[replace(key, tiebreak=-i)] = f", "                self._defns[replace(key, tiebreak=_)] = f", ["C05"]),
     # ---- C16
     "defns_overlay_reversed": ("core.py", "        for mixin in self.mixins:\n            defns.update(mixin.defns)\n        defns.update(self._defns)",
                                "        defns.update(self._defns)\n        for mixin in reversed(self.mixins):\n            defns.update(mixin.defns)", ["C16"]),
-    "compile_no_lock": ("core.py", "        self._lock_parents()\n\n        if self.name is None:", "        if self.name is None:", ["C16"]),
+    "compile_no_lock": ("core.py", "        self._lock_parents()\n        self._compiled = True", "        self._compiled = True", ["C16"]),
     "lock_not_recursive": ("core.py", "        self._locked = True\n        for mixin in self.mixins:\n            mixin.lock()\n", "        self._locked = True\n", ["C16"]),
     "no_children_append": ("core.py", "                mixin.children.append(self)\n", "                pass\n", ["C16"]),
-    "update_no_children": ("core.py", "            try:\n                child._update()\n            except Exception as exc:\n                failure = failure or exc\n", "            pass\n", ["C16"]),
-    "addmixins_no_update": ("core.py", "        self.mixins += mixins\n        self._update()\n", "        self.mixins += mixins\n", ["C16"]),
+    "update_no_children": ("core.py", "        yield self\n        for child in self.children:\n            yield from child._linked()\n", "        yield self\n", ["C16"]),
+    "addmixins_no_update": ("core.py", "        rebuild = self._begin_update()\n        for mixin in mixins:", "        rebuild = []\n        for mixin in mixins:", ["C16"]),
     "copy_shares_defns": ("core.py", "        return Ovld(mixins=[self, *mixins], linkback=linkback)", "        o = Ovld(mixins=[self, *mixins], linkback=linkback)\n        o._defns = self._defns\n        return o", ["C16"]),
     # ---- C06
     "sortkey_id": ("typemap.py", "        return self.priority, sum(self.specificity), self.tiebreak", "        return self.priority, sum(self.specificity), self.tiebreak, id(self.handler)", ["C06"]),
